@@ -28,8 +28,9 @@ static char *menu[] = {
 	"s/^/V/|$d",		/* 12 */
 	".,+1g/2/s/^/W/",	/* 13: nested global with a range of its own */
 	"-2s/^/>/|s/$/!/",	/* 14: the first command of the list fails on the first two lines; the second still runs and the global goes on */
+	"+1s/$/\\\nZ/",		/* 15: splits the next line in two before it is visited; its first half is still that line */
 };
-#define NMENU 15
+#define NMENU 16
 struct ml { int id; char t[12]; };
 static struct ml L[NL * 2 + 40];
 static int ln;
@@ -67,6 +68,7 @@ static int mrun(int m, int c)
 		if (strchr(L[c + 1].t, '2')) mprefix(c + 1, 'W');
 		return 0;
 	case 14: if (c >= 2) mprefix(c - 2, '>'); msuffix(c, '!'); return 0;
+	case 15: if (c + 1 >= ln) return 1; mins(c + 2, -1, "Z"); return 0;
 	}
 	return 1;
 }
